@@ -277,6 +277,16 @@ def declared(w, probe):
             prio = 1
         out['apps'][aid]['alloc'] = where
         out['apps'][aid].setdefault('prio', prio)
+    out['groups'] = {}
+    for g in cell.identity_groups:
+        rec = _rec(w, '/identity-groups/' + g)
+        if isinstance(rec, dict) and 'count' in rec:
+            out['groups'][probe.group_ids[g]] = int(rec['count'])
+    blacklist = list(_rec(w, '/blackedout.apps') or [])
+    for name in cell.apps:
+        aid = probe.app_ids[name]
+        if aid in out['apps']:
+            out['apps'][aid]['blacklisted'] = any(fnmatch.fnmatchcase(name.split('#')[0], pat) for pat in blacklist)
     for name in cell.members():
         rec = _rec(w, '/servers/' + name)
         if not (isinstance(rec, dict) and 'memory' in rec):
@@ -285,7 +295,7 @@ def declared(w, probe):
             'cap': [int(str(rec['memory']).rstrip('M')), int(str(rec['cpu']).rstrip('%')), int(str(rec['disk']).rstrip('M'))],
             'label': probe.label_ids[rec.get('partition') or '_default'],
             'has_traits': bool(rec.get('traits')),
-            'parent': rec.get('parent')}
+            'parent': probe.bkt_ids[rec['parent']] if rec.get('parent') else None}
         if rec.get('up_since') is not None:
             out['servers'][probe.srv_ids[name]]['up_since'] = rec['up_since']
     return out
@@ -295,7 +305,7 @@ def declared(w, probe):
 FIELD_OWNER = {'demand': ('C01',), 'cap': ('C01',), 'limits': ('C04',), 'aff': ('C04',), 'group': ('C05',),
                'prio': ('C06',), 'alloc': ('C03', 'C06'), 'alloc_reserved': ('C06',), 'alloc_rank': ('C06',),
                'alloc_adj': ('C06',), 'alloc_has_traits': ('C03', 'C07'), 'alloc_trait_bits': ('C03', 'C07'),
-               'up_since': ('C02', 'C03'),
+               'up_since': ('C02', 'C03'), 'group_count': ('C05',), 'blacklisted': ('C05', 'C08'), 'parent': ('C04',),
                'label': ('C03',), 'lease': ('C03',), 'has_traits': ('C03',), 'once': ('C07',), 'drt': ('C08',)}
 
 
@@ -317,7 +327,8 @@ def apply_declared(trace, probe):
                 eff = {'alloc': (ap['label'], tuple(ap['alloc_path'] or ())),
                        'demand': ap['demand'], 'limits': ap['limits'], 'aff': aff_name.get(ap['aff']),
                        'group': grp_name.get(ap['group']) if ap['group'] is not None else None, 'once': ap['once'],
-                       'lease': ap['lease'], 'drt': ap['drt'], 'has_traits': bool(ap.get('own_traits', ap['traits']))}
+                       'lease': ap['lease'], 'drt': ap['drt'], 'has_traits': bool(ap.get('own_traits', ap['traits'])),
+                       'blacklisted': ap['blacklisted']}
                 eff['prio'] = ap['prio']
                 for f, v in d.items():
                     if eff.get(f) != v:
@@ -326,10 +337,16 @@ def apply_declared(trace, probe):
                 sv = snap['servers'].get(sid)
                 if sv is None:
                     continue
-                eff = {'cap': sv['cap'], 'label': sv['label'], 'has_traits': bool(sv['traits']), 'up_since': sv.get('up_since')}
-                for f in ('cap', 'label', 'has_traits', 'up_since'):
+                eff = {'cap': sv['cap'], 'label': sv['label'], 'has_traits': bool(sv['traits']), 'up_since': sv.get('up_since'),
+                       'parent': sv['chain'][0] if sv.get('chain') else None}
+                for f in ('cap', 'label', 'has_traits', 'up_since', 'parent'):
                     if f in d and eff[f] != d[f]:
                         mism.append((f, 'server %d: %s is %r in the scheduler, its record declares %r' % (sid, f, eff[f], d[f])))
+            for g, cnt in dec.get('groups', {}).items():
+                gr = snap['groups'].get(g)
+                if gr is not None and gr['count'] != cnt:
+                    mism.append(('group_count', 'identity group %d: count is %r in the scheduler, its record declares %r'
+                                 % (g, gr['count'], cnt)))
             for pos, d in dec.get('allocs', {}).items():
                 al = snap.get('allocs', {}).get(pos)
                 if al is None:
